@@ -507,8 +507,12 @@ static uint32_t index_digest(const lzma_index *idx)
 	lzma_index_iter_init(&it, idx);
 	while (!lzma_index_iter_next(&it, LZMA_INDEX_ITER_ANY)) {
 		v[0] = it.stream.number; v[1] = it.stream.block_count; v[2] = it.stream.compressed_offset;
-		v[3] = it.stream.padding; v[4] = it.block.number_in_file; v[5] = it.block.compressed_file_offset;
-		v[6] = it.block.uncompressed_file_offset; v[7] = it.block.unpadded_size; v[8] = it.block.uncompressed_size;
+		v[3] = it.stream.padding;
+		// a Stream without Blocks is returned too (LZMA_INDEX_ITER_ANY); its lzma_index_iter.block members are undefined
+		const bool has = it.stream.block_count > 0;
+		v[4] = has ? it.block.number_in_file : 0; v[5] = has ? it.block.compressed_file_offset : 0;
+		v[6] = has ? it.block.uncompressed_file_offset : 0; v[7] = has ? it.block.unpadded_size : 0;
+		v[8] = has ? it.block.uncompressed_size : 0;
 		v[9] = it.stream.flags != NULL ? (uint64_t)it.stream.flags->check : 99;
 		crc = lzma_crc32((const uint8_t *)v, sizeof(v), crc);
 	}
